@@ -833,7 +833,7 @@ func (e *Env) evalCall(x *Expr) (SV, error) {
 		if gt == nil || a.T.Sort != SInt {
 			return SV{}, serr("implements: interface value and Go interface type expected in %s", x)
 		}
-		return SV{T: c.And(c.Not(c.Eq(a.T, c.Int(0))), c.UF("implements_"+sanitize(shortTypeName(gt)), SBool, c.UF("typeof", SInt, a.T)))}, nil
+		return SV{T: c.And(c.Not(c.Eq(a.T, c.Int(0))), c.UF(v.implementsSym(gt), SBool, c.UF("typeof", SInt, a.T)))}, nil
 	case "floatlit":
 		// floatlit("0"): the floating-point literal as the code's constant of the same exact value (uninterpreted sort Float)
 		if len(x.Args) != 1 || x.Args[0].Kind != "str" {
